@@ -127,9 +127,33 @@ def strip_comments(src):
     return src
 
 
-def grep_forbidden():
+def import_closure(roots):
+    """Lean source files (under lean/) reachable from the given module names / root files"""
+    seen, todo = {}, list(roots)
+    while todo:
+        m = todo.pop()
+        if m in seen:
+            continue
+        f = LEAN / (m.replace(".", "/") + ".lean")
+        if not f.exists():
+            continue
+        seen[m] = f
+        for line in f.read_text().splitlines():
+            mm = re.match(r"\s*(?:public\s+)?import\s+([A-Za-z0-9_.]+)", line)
+            if mm and (mm.group(1).startswith("DaliVerif") or (LEAN / (mm.group(1) + ".lean")).exists()):
+                todo.append(mm.group(1))
+    return seen
+
+
+def grep_forbidden(roots=None):
+    """forbidden words in the Lean sources a property depends on (its Props
+    module and the roots of its model drivers), comments stripped"""
+    if roots:
+        files = sorted(import_closure(roots).values())
+    else:
+        files = sorted(LEAN.glob("DaliVerif/**/*.lean"))
     hits = []
-    for p in sorted(LEAN.glob("DaliVerif/**/*.lean")):
+    for p in files:
         for n, line in enumerate(strip_comments(p.read_text()).splitlines(), 1):
             if FORBIDDEN.search(line):
                 hits.append("%s:%d: %s" % (p.relative_to(VERIF), n, line.strip()))
